@@ -292,7 +292,7 @@ func runConc(cfg *common.Config, rec *common.Recorder, idx uint64, rng *common.R
 	}
 	N := rng.PickInt(2, 4, 16)
 	objBytes := uint64(w * 8)
-	budgetObjs := uint64(rng.PickInt(10, 100, 1000, 5000))
+	budgetObjs := uint64(rng.PickInt(5, 10, 50, 200, 1000))
 	T := uint64(P*8) + budgetObjs*objBytes + uint64(rng.Intn(int(objBytes))) // root + k objects + slack < one object
 	if idx%200 == 0 {
 		rec.Case(idx, fmt.Sprintf("conc N=%d P=%d w=%d T=%d", N, P, w, T))
@@ -319,9 +319,15 @@ func runConc(cfg *common.Config, rec *common.Recorder, idx uint64, rng *common.R
 				<-start
 				i := gi
 				misses := 0
-				for misses < 3 {
+				// Logical bound: the budget allows budgetObjs successes in
+				// total; a goroutine that alone exceeds twice that has
+				// already refuted the property, so it may stop (this keeps
+				// the case finite when the budget "wraps" to a huge value).
+				mine := uint64(0)
+				for misses < 3 && mine <= 2*budgetObjs+16 {
 					ptr, err := rs.Ptr(uint16(i % P))
 					i++
+					mine++
 					if err != nil {
 						misses++
 						atomic.AddInt64(&fail, 1)
